@@ -20,7 +20,14 @@ import (
 
 type Rng struct{ s uint64 }
 
-func NewRng(seed uint64) *Rng { return &Rng{s: seed*0x9E3779B97F4A7C15 + 0x1234567} }
+// NewRng derives the initial state by hashing the seed (splitmix64 finaliser): the streams of
+// neighbouring seeds are unrelated (seed*golden would make seed k+1 the stream of seed k shifted by one).
+func NewRng(seed uint64) *Rng {
+	z := seed + 0x632BE59BD9B4E019
+	z = (z ^ (z >> 30)) * 0xBF58476D1CE4E5B9
+	z = (z ^ (z >> 27)) * 0x94D049BB133111EB
+	return &Rng{s: z ^ (z >> 31)}
+}
 
 func (r *Rng) U64() uint64 {
 	r.s += 0x9E3779B97F4A7C15
